@@ -98,6 +98,7 @@ package main
 //@ spec func effMode(t *Topic, u types.Uid) types.AccessMode { return t.perUser[u].modeGiven & t.perUser[u].modeWant }
 
 //@ func (t *Topic) replyDelMsg(sess *Session, asUid types.Uid, asChan bool, msg *ClientComMessage) (err error)
+//@   ensures [C13] answered: outTotal > old(outTotal)
 //@   requires [C04,C08] t != nil && sess != nil && msg != nil && msg.Del != nil && asUid != types.ZeroUid
 //@   assert at call DeleteList [C04] gate:          !asChan && (effMode(t, asUid) & (types.ModeDelete | types.ModeRead)) != 0
 //@   assert at call DeleteList [C04,C08] target:        $1 == t.name && $2 == t.delID + 1 && ($3 == types.ZeroUid || $3 == asUid)
@@ -194,6 +195,7 @@ package main
 
 // What is reported: 0 <= read <= recv <= seq in every description sent out.
 //@ func (t *Topic) replyGetDesc(sess *Session, asUid types.Uid, asChan bool, opts *MsgGetOpts, msg *ClientComMessage) (err error)
+//@   ensures [C13] answered: outTotal > old(outTotal)
 //@   requires [C09,C08] t != nil && sess != nil && msg != nil
 // (read <= recv is deliberately NOT assumed of the cached marks here: the store can hold read > recv - see the known
 // finding on handleNoteBroadcast - and a reload copies stored marks into the cache; the report must be sane anyway)
@@ -399,6 +401,10 @@ package main
 
 // A user's own {sub} / {set sub}. Ownership exists only on group topics (established by the topic constructors).
 //@ func (t *Topic) thisUserSub(sess *Session, pkt *ClientComMessage, asUid types.Uid, asChan bool, want string, private any) (res *MsgAccessMode, err error)
+//@   ensures [C13] failure_is_answered: err != nil && !old((asUid in t.perUser) && !t.perUser[asUid].deleted && hasO(t.perUser[asUid].modeGiven) && !hasO(t.perUser[asUid].modeWant)) ==> outTotal > old(outTotal)
+// (accepting an ownership transfer: a store failure after the requester's own row was updated returns without a reply -
+// known finding, an existing test pins the silence)
+//@   ensures [C13] failed_transfer_is_answered: err != nil && old((asUid in t.perUser) && !t.perUser[asUid].deleted && hasO(t.perUser[asUid].modeGiven) && !hasO(t.perUser[asUid].modeWant)) ==> outTotal > old(outTotal)
 //@   requires t != nil && sess != nil && pkt != nil
 //@   requires [C07] p2p_wf: t.cat == types.TopicCatP2P ==> (t.accessAuth & ^types.ModeCP2P) == 0 && (t.accessAnon & ^types.ModeCP2P) == 0 && ((asUid in t.perUser) ==> (t.perUser[asUid].modeGiven & ^types.ModeCP2P) == 0 && (t.perUser[asUid].modeGiven & types.ModeApprove) != 0)
 //@   requires [C06] owner_cached: t.owner == asUid ==> (asUid in t.perUser) && !t.perUser[asUid].deleted && !t.perUser[asUid].isChan && t.cat == types.TopicCatGrp
@@ -431,6 +437,7 @@ package main
 //@ spec func canShare(t *Topic, u types.Uid) bool { return (u in t.perUser) && (effMode(t, u) & (types.ModeShare | types.ModeApprove | types.ModeOwner)) != 0 }
 //@ spec func isAdminOf(t *Topic, u types.Uid) bool { return (effMode(t, u) & (types.ModeOwner | types.ModeApprove)) != 0 }
 //@ func (t *Topic) anotherUserSub(sess *Session, asUid types.Uid, target types.Uid, asChan bool, pkt *ClientComMessage) (res *MsgAccessMode, err error)
+//@   ensures [C13] failure_is_answered: err != nil ==> outTotal > old(outTotal)
 //@   requires t != nil && sess != nil && pkt != nil && pkt.Set != nil && pkt.Set.Sub != nil && asUid != target
 //@   requires [C07] p2p_wf: t.cat == types.TopicCatP2P ==> ((asUid in t.perUser) ==> (t.perUser[asUid].modeGiven & ^types.ModeCP2P) == 0)
 //@   requires [C06] defaults_no_owner: !hasO(t.accessAuth) && !hasO(t.accessAnon)
@@ -453,6 +460,7 @@ package main
 
 // {del sub}: an administrator removes somebody else's subscription - never the owner's.
 //@ func (t *Topic) replyDelSub(sess *Session, asUid types.Uid, msg *ClientComMessage) (err error)
+//@   ensures [C13] answered: outTotal > old(outTotal)
 //@   requires t != nil && sess != nil && msg != nil && msg.Del != nil
 //@   modifies inferred
 //@   ensures [C06] owner_field: t.owner == old(t.owner)
@@ -463,6 +471,7 @@ package main
 
 // {leave unsub}: the owner cannot unsubscribe; nobody else's subscription is touched.
 //@ func (t *Topic) replyLeaveUnsub(sess *Session, msg *ClientComMessage, asUid types.Uid) (err error)
+//@   ensures [C13] answered: old(msg.init) ==> outTotal > old(outTotal)
 //@   requires t != nil && sess != nil && msg != nil
 //@   modifies inferred
 //@   ensures [C06] owner_field: t.owner == old(t.owner)
@@ -495,6 +504,7 @@ package main
 
 // Only the owner changes a group topic's tags and its public / trusted description and default access.
 //@ func (t *Topic) replySetTags(sess *Session, asUid types.Uid, msg *ClientComMessage) (err error)
+//@   ensures [C13] answered: outTotal > old(outTotal)
 //@   requires t != nil && sess != nil && msg != nil && msg.Set != nil
 //@   modifies inferred
 //@   ensures [C06] tags_owner_only: t.cat == types.TopicCatGrp && old(t.owner) != asUid ==> err != nil && ref(t.tags) == old(ref(t.tags)) && len(t.tags) == old(len(t.tags))
@@ -504,6 +514,7 @@ package main
 //@   ensures [C19] cache_follows_check: ref(t.tags) != old(ref(t.tags)) ==> restrictedTagsSame && err == nil
 
 //@ func (t *Topic) replySetDesc(sess *Session, asUid types.Uid, asChan bool, authLevel auth.Level, msg *ClientComMessage) (err error)
+//@   ensures [C13] answered: outTotal > old(outTotal)
 //@   requires t != nil && sess != nil && msg != nil && msg.Set != nil
 //@   modifies inferred
 //@   ensures [C06] desc_owner_only: t.cat == types.TopicCatGrp && old(t.owner) != asUid ==> t.accessAuth == old(t.accessAuth) && t.accessAnon == old(t.accessAnon) && t.public == old(t.public) && t.trusted == old(t.trusted)
@@ -516,6 +527,7 @@ package main
 // {set sub}: a request naming the requester (or nobody) acts on the requester's own subscription, any other on the
 // target's; whoever is neither is not touched.
 //@ func (t *Topic) replySetSub(sess *Session, pkt *ClientComMessage, asChan bool) (err error)
+//@   ensures [C13] answered: outTotal > old(outTotal)
 //@   requires t != nil && sess != nil && pkt != nil && pkt.Set != nil && pkt.Set.Sub != nil
 //@   requires [C07] p2p_wf: t.cat == types.TopicCatP2P ==> (t.accessAuth & ^types.ModeCP2P) == 0 && (t.accessAnon & ^types.ModeCP2P) == 0 && (forall u types.Uid :: (u in t.perUser) ==> (t.perUser[u].modeGiven & ^types.ModeCP2P) == 0 && (t.perUser[u].modeGiven & types.ModeApprove) != 0)
 //@   requires [C06] owner_cached: (t.owner in t.perUser) ==> !t.perUser[t.owner].deleted && !t.perUser[t.owner].isChan && t.cat == types.TopicCatGrp
@@ -625,6 +637,7 @@ package main
 // C19: a 'fnd' search reaches the store only after the masked-namespace filter has looked at every required and every
 // optional term and found none that the searcher does not carry, and ordinary users search active records only.
 //@ func (t *Topic) replyGetSub(sess *Session, asUid types.Uid, authLevel auth.Level, asChan bool, msg *ClientComMessage) (err error)
+//@   ensures [C13] answered: outTotal > old(outTotal)
 //@   requires [C19] t != nil && sess != nil && msg != nil && msg.Get != nil
 //@   modifies *
 //@   assert at call filterRestrictedTags [C19] covers_all_terms: len($1) == len(allReq) + len(opt) && $2 == globals.maskedTagNS
@@ -985,3 +998,35 @@ package main
 //@   assert at call presSubsOffline [C10] group_goes_off: $1 == "off"
 //@   ensures [C10] unload_is_announced: old(t.cat == types.TopicCatGrp) ==> called("presSubsOffline") == old(called("presSubsOffline")) + 1
 //@   ensures [C10] me_unload_is_announced: old(t.cat == types.TopicCatMe) ==> called("presUsersOfInterest") == old(called("presUsersOfInterest")) + 1
+
+// C13: every {get}/{set}/{del} part handled by a topic ends with at least one reply to the requesting session (the
+// same clause is attached to the handlers that already have a contract above).
+//@ func (t *Topic) replyGetData(sess *Session, asUid types.Uid, asChan bool, req *MsgGetOpts, msg *ClientComMessage) (err error)
+//@   requires [C13] t != nil && sess != nil && msg != nil
+//@   modifies inferred
+//@   ensures [C13] answered: outTotal > old(outTotal)
+//@ func (t *Topic) replyGetTags(sess *Session, asUid types.Uid, msg *ClientComMessage) (err error)
+//@   requires [C13] t != nil && sess != nil && msg != nil
+//@   modifies inferred
+//@   ensures [C13] answered: outTotal > old(outTotal)
+//@ func (t *Topic) replyGetCreds(sess *Session, asUid types.Uid, msg *ClientComMessage) (err error)
+//@   requires [C13] t != nil && sess != nil && msg != nil
+//@   modifies inferred
+//@   ensures [C13] answered: outTotal > old(outTotal)
+//@ func (t *Topic) replySetCred(sess *Session, asUid types.Uid, authLevel auth.Level, msg *ClientComMessage) (err error)
+//@   requires [C13] t != nil && sess != nil && msg != nil && msg.Set != nil
+//@   modifies inferred
+//@   ensures [C13] answered: outTotal > old(outTotal)
+//@ func (t *Topic) replyGetDel(sess *Session, asUid types.Uid, req *MsgGetOpts, msg *ClientComMessage) (err error)
+//@   requires [C13] t != nil && sess != nil && msg != nil
+//@   modifies inferred
+//@   ensures [C13] answered: outTotal > old(outTotal)
+//@ func (t *Topic) replyDelTopic(sess *Session, asUid types.Uid, msg *ClientComMessage) (err error)
+//@   requires [C13] t != nil && sess != nil && msg != nil
+//@   modifies inferred
+// (the owner's {del topic} is executed by the hub and never reaches the topic)
+//@   ensures [C13] answered: old(msg.init && t.owner != asUid) ==> outTotal > old(outTotal)
+//@ func (t *Topic) replyDelCred(sess *Session, asUid types.Uid, authLvl auth.Level, msg *ClientComMessage) (err error)
+//@   requires [C13] t != nil && sess != nil && msg != nil && msg.Del != nil
+//@   modifies inferred
+//@   ensures [C13] answered: outTotal > old(outTotal)
